@@ -4,6 +4,8 @@ import OmbottModel.Drv.StaticFile
 import OmbottModel.Drv.Headers
 import OmbottModel.Drv.Cookies
 import OmbottModel.Drv.ErrorPage
+import OmbottModel.Drv.Router
+import OmbottModel.Drv.RouteUrl
 /-! Dispatch of a protocol line to the area handlers.  `State` holds the few models that are
 driven as state machines across lines (router, multipart feed, header store). -/
 namespace Drv
@@ -27,6 +29,8 @@ def step (st : State) (line : String) : State × String :=
     | "hdr" => pure? (Headers.handle rest)
     | "cookie" => pure? (Cookies.handle rest)
     | "errorpage" => pure? (ErrorPage.handle rest)
+    | "router" => pure? (Router.handle rest)
+    | "routeurl" => pure? (RouteUrl.handle rest)
     | _ => (st, "bad-op")
 
 end Drv
